@@ -9,7 +9,7 @@ import p_exact
 
 def rand_domain(rng, wide=True):
     w = rng.choice([1e-6, 1e-3, 0.1, 1.0, 1.0, 2.0, 7.0, 1e3, 1e6]) if wide else rng.choice([0.5, 1.0, 2.0, 4.0])
-    lo = rng.choice([0.0, -1.0, 1.0, 3.0, -0.5]) * rng.choice([1.0, w, 10 * w])
+    lo = rng.choice([0.0, -1.0, 1.0, 3.0, -0.5]) * rng.choice([1.0, w, 10 * w, 1e3 * w, 1e5 * w, 1e6 * w])   # offsets up to 1e6 widths
     return (float(lo), float(lo + w))
 
 
